@@ -591,5 +591,5 @@ func progF(withRemote bool) schedProgram {
 }
 
 func allSchedPrograms() []schedProgram {
-	return []schedProgram{progA(), progB(), progC(), progD(), progE(), progF(false), progF(true), progG(), progH(), progI(), progJ()}
+	return []schedProgram{progA(), progB(), progC(), progD(), progE(), progF(false), progF(true), progG(), progH(), progI(), progJ(), progL()}
 }
